@@ -1478,10 +1478,12 @@ fn exhaustive<D: Doc>(cx: &mut Cx, args: &Args, env: &mut Env, depth: u32, strid
     for (st, doc, model) in &starts {
       for op in &ops {
         u += 1;
-        if !args.mine(u) {
+        // units are spread over the shards by a hash (48 operations per start would otherwise alias with 8/16 shards)
+        let h = vh::rng::fnv(&u.to_le_bytes()) >> 7;
+        if !args.mine(h) {
           continue;
         }
-        if pass == 1 && (depth < 2 || (u / args.nshards.max(1)) % stride != 0) {
+        if pass == 1 && (depth < 2 || (h / args.nshards.max(1)) % stride != 0) {
           continue;
         }
         let mut d2 = doc.clone();
@@ -1712,7 +1714,7 @@ fn main() {
   // ---- (a) exhaustive histories
   let mut unit = 0u64;
   let (core_depth, iota_depth, stride) = if scale >= 1000 {
-    (if thorough { 4 } else { 3 }, if thorough { 3 } else { 2 }, 1u64)
+    (if thorough { 4 } else { 3 }, if thorough { 4 } else { 3 }, 1u64)
   } else {
     (2, 2, (200 / scale).clamp(1, 48))
   };
@@ -1734,7 +1736,7 @@ fn main() {
   }
 
   // ---- (b) random walks
-  let total_walks: u64 = if thorough { 26_000 } else { 3_000 };
+  let total_walks: u64 = if thorough { 400_000 } else { 16_000 };
   let per_shard = ((total_walks * scale / 1000) / args.nshards.max(1)).max(3);
   let mut rng = args.rng(4);
   let n_core = per_shard / 2;
@@ -1751,6 +1753,15 @@ fn main() {
   {
     // fragments as they occur in practice ("#didcomm", "#key-1")
     let mut env = Env::new(Uni::new("core", CORE_DIDS, &["key-1", "didcomm", "f0"]));
+    if args.shard == 0 {
+      // fixed document with such fragments (its resolution queries are checked when it is opened)
+      let mut e = Model::default();
+      e.vm.push((id(0, 0, 0), 930));
+      e.vm.push((id(0, 0, 1), 931));
+      e.rel[0].push(Ent::Ref(id(0, 0, 1)));
+      e.svc.push((id(1, 0, 1), 932));
+      let _ = open::<CoreDocument>(&mut cx, &mut env, "E-practical-fragments", 4, 0, &e, false);
+    }
     random_walks::<CoreDocument>(&mut cx, &mut env, &mut rng, n_odd, 40);
   }
   cx.rep.note("scale", json!(scale));
